@@ -403,6 +403,9 @@ def ex_linear_trend(c):
 def ex_normalize(c):
     a, other = arr(c["a"], c.get("container", "array")), arr(c["other"], c.get("container", "array"))
     lo, hi = fl(c["lo"]), fl(c["hi"])
+    if c.get("aoff"):        # the same series on a level far above its spread: normalising removes the level exactly
+        L = c["aoff"][0] * 2.0 ** c["aoff"][1]
+        a = [v + L for v in a] if isinstance(a, list) else a + (int(L) if a.dtype.kind in "iu" else L)
     if c["lo"][1] == 1 and c["hi"][1] == 1 and len(c["a"]) % 3 == 0:       # integer-valued range handed over as Python ints
         lo, hi = int(lo), int(hi)
     if c["lo"] == [0, 1] and c["hi"] == [1, 1] and len(c["a"]) % 2 == 0:      # documented default range left implicit
@@ -1167,7 +1170,9 @@ def ex_noise(c):
 # ---------------------------------------------------------------------------------------------- C16 smoothing
 def ex_smooth(c):
     import warnings as _w
-    x, y = arr(c["x"], c.get("container", "array")), arr(c["y"], c.get("container", "array"))
+    # (abscissae far from the origin relative to their spacing: every clause is evaluated on the values recorded for this run,
+    #  nothing is compared with an untranslated run, so the translation need not be exact for FITPACK)
+    x, y = xarr(c["x"], c.get("container", "array"), xoff(c)), arr(c["y"], c.get("container", "array"))
     s = c["s_f"]
     warned = [False]
 
